@@ -1,0 +1,20 @@
+//go:build verif
+
+package provisioning
+
+// VerifPipelineLocks exposes the per-pipeline lock table (lock.go) to the
+// verification harness (h_ctl, component locks). It only forwards to the real
+// pipelineLocks; nothing here is used by production code.
+type VerifPipelineLocks struct{ p *pipelineLocks }
+
+// VerifNewPipelineLocks returns a fresh lock table, built the way NewService builds its own.
+func VerifNewPipelineLocks() *VerifPipelineLocks {
+	return &VerifPipelineLocks{p: newPipelineLocks()}
+}
+
+// Lock is pipelineLocks.Lock.
+func (v *VerifPipelineLocks) Lock(id string) func() { return v.p.Lock(id) }
+
+// VerifLockPipeline takes this Service's own per-pipeline lock, exactly as
+// ApplyPlan / ApplyPlanLive do on entry, and returns the release func.
+func (s *Service) VerifLockPipeline(id string) func() { return s.pipelineLocks.Lock(id) }
